@@ -107,6 +107,29 @@ def run(ck):
                 fails.append(("stored_list_index_is_position", ("index", "cell_divider::run"), dict(driver="divide", input=c["line"][:100000], threads=4, list_indices=idx),
                               "after simultaneous divisions of %s under 4 threads the cells at positions 0..%d carry list indices %s: the next subscript through them reads another cell's nodes or past the list" % (c["layout"], len(idx) - 1, idx))); break
     asan_lines("contact", [cc.case_line(cc.gen_tissue(rng)) for _ in range(8 if quick else 100)], contact=1)
+    # lattice-built facing cubes: bit-for-bit ties in every comparison of the narrow phase (a branch chain that forgets the
+    # tie leaves its result unassigned); under the sanitizer and, because an unassigned value is not an address error, under
+    # valgrind
+    lat = [cc.case_line(cc.gen_lattice_pair(rng)) for _ in range(6 if quick else 60)]
+    asan_lines("contact", lat, contact=1)
+    try:
+        # built without optimisation: an optimiser may give an unassigned variable a value (the code is then "right by accident"
+        # in that build only), memcheck must see the program as written
+        cimpl = vlib.build_driver("contact", contact=1, opt="-O0")
+        for l in lat[:3 if quick else 12]:
+            r = subprocess.run(["valgrind", "--error-exitcode=9", "--track-origins=yes", "-q", cimpl], input=l + "\n", capture_output=True, text=True, timeout=3000, env=dict(os.environ, OMP_NUM_THREADS="1"))
+            nscen += 1; dist["contact(valgrind)"] = dist.get("contact(valgrind)", 0) + 1
+            reps = re.findall(r"==\d+== (Conditional jump or move depends on uninitialised value\(s\)|Use of uninitialised value[^\n]*|Invalid (?:read|write)[^\n]*)\n==\d+==    at 0x[0-9A-F]+: ([^\n]*)", r.stderr)
+            own = [(k, w) for k, w in reps if ".cpp:" in w or ".hpp:" in w]
+            if own:
+                k, w = own[0]
+                loc = re.search(r"\(([\w\.]+:\d+)\)", w)
+                fails.append(("no_decision_on_uninitialised_value", ("uninit", (loc.group(1) if loc else w[:40]).split(":")[0]), dict(driver="contact", input=l[:100000], report=r.stderr[:6000]), "valgrind on the contact phase of lattice cubes: %s at %s" % (k, w[:160])))
+                break
+            if r.returncode not in (0, 9) and r.returncode < 0:
+                fails.append(("no_crash", ("signal", "contact-valgrind"), dict(driver="contact", input=l[:100000], stderr=r.stderr[-3000:]), "contact driver died under valgrind with signal %d" % -r.returncode)); break
+    except FileNotFoundError:
+        pass
     # refinement histories from compact vectors (the C01 generator), if available
     try:
         c01 = importlib.import_module("checks.c01")
@@ -120,7 +143,7 @@ def run(ck):
     vg_note = "not run"
     try:
         from checks.c08 import std_types, R
-        impl = vlib.build_driver("solver", wrap_clock=True)
+        impl = vlib.build_driver("solver", wrap_clock=True, opt="-O0")
         n0, f = tissue.icosphere(1); n0 = tissue.perturb(random.Random(3), n0, 0.04 * tissue.mean_edge(n0, f))
         V = abs(tissue.signed_volume([[x * R for x in p] for p in n0], f))
         cts = std_types(V, ["normal", "normal"], [3, 3])
